@@ -381,11 +381,14 @@ CLAIMED = {
         'cards, escaped wild cards) TLC checks that the transcribed scans of '
         'xmatch with their early exits equal the definition '
         '(ScanRefinesMatch), and CriteriaPartition for the six operators. '
-        'Each of the 24 282 cases is an obligation replayed on the real '
+        'Each of the about 30 900 cases is an obligation replayed on the real '
         'functions through Cell: MATCH on an array literal (both '
         'orientations) and on a referenced range with blank cells, VLOOKUP / '
         'HLOOKUP / LOOKUP / INDEX(MATCH) on tables built around the key line, '
-        'INDEX on all shapes <= 3x3 (rows / columns 1..4), COUNTIF / SUMIF / '
+        'INDEX on all shapes <= 6x6 (rows / columns 1..7), VLOOKUP / HLOOKUP '
+        'on tables of every shape <= 6x6 with every key inside / between / '
+        'outside and every column up to one past the table (TableRow), '
+        'COUNTIF / SUMIF / '
         'AVERAGEIF with the criterion written as users write it; SUMIF over '
         'powers of ten identifies exactly which positions were selected. '
         'Bounded by the pool; quick replays a 9 000-case sample.',
@@ -401,14 +404,16 @@ CLAIMED = {
         'sequences; 25 laws relating them) + replay of every case on the real '
         'functions through Cell',
         'FnDef.tla defines the 70 listed functions; Fns.tla explores four '
-        'families of cases (19 001 in all): aggregations over argument lists '
+        'families of cases (about 19 100 in all): aggregations over argument lists '
         'that mix directly typed values, referenced ranges with blanks / text '
         '/ logicals / errors and array literals; logical and IS functions over '
         'every value kind; element-wise mathematics (rounding of halves and '
         'exact decimals such as 1.15, 2.675, 1.005 with digits -3..3, the sign '
         'cases of MOD / CEILING / FLOOR / EVEN / ODD, domain errors); text '
         'functions (positions 0, negative and past the end, optional '
-        'arguments, wild cards, coercion of numbers / logicals / blanks). TLC '
+        'arguments, wild cards, coercion of numbers / logicals / blanks); '
+        'element-wise functions over row / column / square arrays and their '
+        'broadcasts (LiftFn, LiftShape). TLC '
         'checks in every state the laws OrderInvariant, AggBracket, KthDual, '
         'RoundBracket, ModLaw, CeilFloor, EvenOdd, DeMorgan, XorParity, '
         'IfsIsNestedIf, InfoPartition, LeftRight, MidLaw, ReplaceLaw, FindLaw, '
